@@ -193,11 +193,17 @@ def point_mixture_cases():
             x = res / res.sum()
             p0 = numpy.array([0.6, 1.1]) / x
             pis = [float(iso.spreading_pressure_at(p0[i], branch=br)) for i, iso in enumerate(both)]
+            # ... and computed here from the points of that branch (closed form), not asked of the library: the two requests share the
+            # isotherm objects, so whatever the first one left behind must not enter the second
+            mine = [closed(sorted(zip(up if br == 'ads' else up[:-1], [M * Ks[i] * (1.6 if br == 'des' else 1.0) * x_ / (1 + Ks[i] * (1.6 if br == 'des' else 1.0) * x_)
+                                                                  for x_ in (up if br == 'ads' else up[:-1])])), float(p0[i])) for i in range(2)]
             inv = sum(x[i] / float(both[i].loading_at(p0[i], branch=br)) for i in range(2))
             want = [M * (Ks[i] * (1.6 if br == 'des' else 1.0)) * [0.6, 1.1][i] / (1 + sum(Ks[j] * (1.6 if br == 'des' else 1.0) * [0.6, 1.1][j] for j in range(2))) for i in range(2)]
             probs = []
             if not numpy.isclose(pis[0], pis[1], rtol=1e-4):
                 probs.append(f"spreading pressures on the {br} branch differ: {pis}")
+            if not numpy.isclose(mine[0], mine[1], rtol=1e-4):
+                probs.append(f"spreading pressures of the measured {br} points at p_i/x_i = {p0} differ: {mine} (the library's own reading: {pis})")
             if not numpy.isclose(1 / inv, res.sum(), rtol=1e-4):
                 probs.append(f"ideal mixing on the {br} branch violated: {1 / inv} vs {res.sum()}")
             if not numpy.allclose(res, want, rtol=2e-2):
